@@ -85,6 +85,15 @@ def run_check(modname, tier, seed, only_case=None):
     case_to = getattr(mod, "CASE_TIMEOUT", 300)
     jobs = int(os.environ.get("VERIF_JOBS", getattr(mod, "JOBS", 16)))
     # dedicated cases (known mechanisms, directed scenarios) run first so that a time budget never cuts them off
+    # ... and the different kinds of cases of a plan are spread evenly over the run order, so that a budget cuts every kind alike
+    groups = {}
+    for c in cases:
+        groups.setdefault((str(c.get("kind")), tuple(sorted(k for k in c if k not in ("seed", "_first")))), []).append(c)
+    order = []
+    for g in groups.values():
+        order += [(i / len(g), id(g), i, c) for i, c in enumerate(g)]
+    order.sort(key=lambda t: (t[0], t[1], t[2]))
+    cases = [t[3] for t in order]
     cases = [c for c in cases if c.get("_first")] + [c for c in cases if not c.get("_first")]
     batches = [cases[i:i + batch_n] for i in range(0, len(cases), batch_n)]
     # wall-clock budget of the tier: cases not started when it is used up are reported as not run (never as held)
